@@ -28,7 +28,7 @@ SLICES = {
         'theorems': [W + t for t in ('osWrite_spec', 'no_fault_transparent', 'no_fault_after_flush', 'no_fault_after_sync', 'no_fault_after_close',
                                      'write_prefix_always', 'first_error_still_prefix', 'gap_implies_reported_error', 'after_failed_flush_gap',
                                      'emit_record_pushed', 'emit_record_pushed_run', 'append_fits_no_syscall', 'sync_order', 'sync_covers_everything',
-                                     'setCurrentFile_atomic', 'writeFile_synced')],
+                                     'setCurrentFile_atomic', 'writeFile_synced', 'no_fault_all_ok', 'no_fault_sync_covers', 'ok_run_abstracts_write_then_sync')],
     },
     'skiplist': {
         'what': 'skiplist.c + memtable.c: real memtables (arena, skiplist, PRNG heights) built by ldb_memtable_add, structural dumps of every level, '
@@ -50,13 +50,19 @@ SLICES['cache'] = {
                                  'cache_shard_run', 'cache_inv', 'cache_lookup_coherent', 'cache_pinned_never_deleted', 'cache_deleted_once', 'cache_usage_is_sum')],
 }
 
+SLICES['skiplist-iter'] = {
+    'what': 'no suite of its own (the skiplist suite drives the iterators): DBIter over the real memtable iterator',
+    'module': 'LcdbModel.Props.SkiplistIterProps', 'gen': None,
+    'theorems': [S + t for t in ('dbiter_is_map_cursor_bounded', 'memiter_simOn', 'dbiter_over_holds', 'dbiter_over_memtable')],
+}
+
 # property -> slices (quick size, thorough size)
 PROP_SLICES = {
     'C01': [('policy', 700, 20000), ('skiplist', 700, 20000), ('cache', 700, 20000)],
     'C10': [('cache', 1200, 40000), ('skiplist', 600, 20000)],
     'C18': [('cache', 600, 20000)],
     'C14': [('policy', 1500, 60000)],
-    'C07': [('skiplist', 900, 30000)],
+    'C07': [('skiplist', 900, 30000), ('skiplist-iter', 0, 0)],
     'C02': [('wfile', 900, 30000)],
     'C03': [('wfile', 700, 20000)],
     'C12': [('wfile', 1500, 60000)],
@@ -88,6 +94,8 @@ def attach(chk):
         for t in sp['theorems']:
             ok, detail = ax.get(t, (False, 'not audited'))
             chk.oblige('theorem:' + t, ok, detail)
+        if not sp.get('gen'):
+            continue
         if unit is None:
             unit = vlib.build_harness('unit', 'asan', exclude=['util/crc32c.c'])
         mod = importlib.import_module(sp['gen'][0])
